@@ -361,3 +361,279 @@ for _e, _spec in EF.EQUIVALENCES.items():
             may_raise=("TypeError",) if _e == "lorentz" else ())
         (OUT_OF_REACH if _e == "effective_temperature" else FORMULAS).append(_n)
 ALL = REFUSALS + FORMULAS
+
+
+# ------------------------------------------------------------------ entry points
+def equivalence_registry(it):
+    """unyt.equivalencies.equivalence_registry: filled by the metaclass _RegisteredEquivalence with
+    every class that defines `type_name` -- read from the class bodies of the tree being verified"""
+    import ast as _ast
+    from pyvc.core import ClassRef
+    out = {}
+    for ci in it.repo.modules["unyt.equivalencies"].classes.values():
+        tn = ci.class_assigns.get("type_name")
+        if isinstance(tn, _ast.Constant) and isinstance(tn.value, str):
+            out[tn.value] = ClassRef(ci)
+    return out
+
+
+for _m in ("unyt.equivalencies", "unyt.array", "unyt.unit_object"):
+    UD.GLOBAL_HOOKS[_m + ".equivalence_registry"] = equivalence_registry
+assumed("equivalence-registry", "equivalence_registry maps each class's type_name to the class (the "
+        "registering metaclass is not executed)")
+
+CLASS_TO_EQUIV = {v["class"]: k for k, v in EF.EQUIVALENCES.items()}
+
+
+def _fresh_result(it, like, label):
+    """a new unyt object of either class with a fresh unit (what the formula contracts leave open)"""
+    ru = make_unit(it, label + "_unit")
+    it.assume(z3.Length(S.ustr(ru)) >= 1)          # ASSUMED['sympy-str-nonempty']
+    cname = "unyt_quantity" if it.branch(it.fresh_bool(label + "_is_quantity")) else "unyt_array"
+    return N.make_unyt_array(it, label, units=ru, cls=cname)
+
+
+class EquivCallsite(Contract):
+    """Equivalence.convert at a call site: the request is matched to the proved contract of its
+    (equivalence, source dimension, target dimension, copy / in-place, array / quantity, float /
+    integer data) configuration; an uncovered request is refused as the refusal contract says"""
+    name = "unyt.equivalencies.Equivalence.convert"
+    properties = ()
+
+    def apply(self, it, bound):
+        from pyvc.contracts import Args
+        me, x, new_dims = bound["self"], bound["x"], bound["new_dims"]
+        kwargs = dict(bound.get("kwargs") or {})
+        e = CLASS_TO_EQUIV.get(me.cls.name)
+        if e is None or not N.is_unyt_array(x) or not isinstance(new_dims, SDim):
+            raise Unsupported("Equivalence.convert call-site form")
+        in_place = me.fields.get("in_place")
+        if not isinstance(in_place, bool):
+            raise Unsupported("Equivalence.convert with a symbolic in_place flag")
+        spec = EF.EQUIVALENCES[e]
+        if set(kwargs) - set(spec["params"]):
+            raise Unsupported("Equivalence.convert keyword %r" % (sorted(kwargs),))
+        xd = S.dim(x.fields["units"])
+        it.call_log.append(self.name)
+        for (s_, d_) in spec["formulas"]:
+            cond = z3.And(S.dim_eq(xd, dim_of(it, EF.DIMS[s_])), S.dim_eq(new_dims, dim_of(it, EF.DIMS[d_])))
+            if not it.branch(cond):
+                continue
+            k = to_z3(N.arr_kind(x))
+            suffix = ""
+            if it.branch(k == N.sv("f")):
+                pass
+            elif not in_place and x.cls.name == "unyt_array" and it.branch(z3.Or(k == N.sv("i"), k == N.sv("u"))):
+                suffix = "_int"
+            else:
+                raise Unsupported("Equivalence.convert on this dtype / class at a call site")
+            vname = "E_%s_%s_%s%s%s" % (e, s_, d_, "_inplace" if in_place else "",
+                                        "_Q" if x.cls.name == "unyt_quantity" else "") if not suffix else \
+                "E_%s_%s_%s_int" % (e, s_, d_)
+            if vname not in FORMULAS:
+                raise Unsupported("no proved contract %s" % vname)
+            v = globals()[vname]()
+            d = {"self": me, "x": x, "new_dims": new_dims}
+            for p_ in v.params:
+                d[p_] = kwargs.get(p_, spec["params"][p_])
+            a = Args(d)
+            for label, f in v.requires(it, a):
+                it.ctx.prove("%s[%s]: pre[%s] at call from %s" % (self.name, vname, label, it.verifying), f,
+                             kind="callsite-pre")
+                it.assume(f)
+            for exc in v.may_raise:
+                if it.branch(it.fresh_bool("mayraise_" + exc)):
+                    it.raise_(exc)
+            old = v.snapshot(it, a)
+            if in_place:
+                b = N.arr_buf(x)
+                b.elem = it.fresh_real("converted_in_place")
+                b.writes += 1
+                b.kind = z3.String(it.ctx.fresh_name("converted_kind"))
+                b.itemsize = it.fresh_int("converted_itemsize")
+                ru = make_unit(it, "converted_unit")
+                it.assume(z3.Length(S.ustr(ru)) >= 1)
+                x.fields["units"] = ru
+                cname = "unyt_quantity" if it.branch(it.fresh_bool("wrapper_is_quantity")) else "unyt_array"
+                r = N.make_unyt_array(it, "converted_view", units=ru, cls=cname, buf=b)
+            else:
+                r = _fresh_result(it, x, "converted")
+            for label, f in v.ensures(it, a, r, old):
+                if f is False:
+                    raise Unsupported("call-site model of %s violates its postcondition %r" % (vname, label))
+                if f is True:
+                    continue
+                it.assume(f)
+            return r
+        ms = [dim_of(it, EF.DIMS[m]) for m in spec["members"]]
+        covered = z3.And(z3.Or(*[S.dim_eq(xd, m) for m in ms]), z3.Or(*[S.dim_eq(new_dims, m) for m in ms]))
+        if it.branch(z3.Not(covered)):
+            it.raise_("InvalidUnitEquivalence")      # contract EquivRefusal_<e>
+        raise Unsupported("Equivalence.convert between equal dimensions")
+
+
+class _ToEquivalent(Contract):
+    """x.to_equivalent(<any unit string>, <equivalence>, **params): the copying entry point behind
+    to / in_units / to_value with equivalence=.  For an input of ARBITRARY dimension and a target
+    unit of arbitrary dimension, scale and zero point: a value is returned only for a target of
+    the input's own dimension (plain conversion) or for a pair the equivalence covers, and it is
+    the defining formula's value expressed in the target unit (zero point included); the input is
+    untouched."""
+    name = "unyt.array.unyt_array.to_equivalent"
+    properties = ("C09", "C18")
+    equiv = None
+    callsite_disabled = True
+    may_raise = ("UnitParseError", "InvalidUnitEquivalence")
+    max_paths = 6000
+
+    def configure(self, repo, dom):
+        dom.inline.add("unyt.equivalencies.Equivalence.__init__")
+        dom.inline.add("unyt.array.unyt_array.has_equivalent")
+        dom.inline.add("unyt.unit_object.Unit.has_equivalent")
+
+    def formals(self, it):
+        from pyvc.unyt_domain import make_registry
+        reg = make_registry(it, "registry")
+        reg.fields["lut"].positive_scales = True
+
+        def cached(it_, key):
+            # memoised Units were built by Unit.__new__ against this registry
+            cu = make_unit(it_, "cached_target", registry=reg)
+            it_.assume(z3.Length(S.ustr(cu)) >= 1)
+            return cu
+        reg.fields["_unit_object_cache"].reader = cached
+        u = make_unit(it, "xu", registry=reg)
+        x = N.make_unyt_array(it, "x", units=u)
+        f = {"self": x, "unit": it.fresh_str("target_unit_string"), "equivalence": self.equiv}
+        self._params = tuple(EF.EQUIVALENCES[self.equiv]["params"])
+        for p in self._params:
+            f[p] = it.fresh_real(p)
+        return f
+
+    def call_args(self, formals):
+        return [formals["self"], formals["unit"], formals["equivalence"]]
+
+    def call_kwargs(self, formals):
+        return {p: formals[p] for p in self._params}
+
+    def track(self, it, a):
+        N.track_array(it, "x", a.self)
+        track_unit(it, "x.units", a.self.fields["units"])
+        it.ctx.track("target_unit_string", a.unit)
+
+    def requires(self, it, a):
+        P = it.domain.prefix_table(it)
+        u = a.self.fields["units"]
+        out = [("x: unit consistent with its table, non-empty name, no zero point",
+                z3.And(S.unit_wf(u, P), z3.Length(S.ustr(u)) >= 1, S.offset(u) == 0)),
+               ("x holds floating-point data", to_z3(N.arr_kind(a.self)) == N.sv("f")),
+               ("every row of the registry's table has a positive scale (excludes the negatively scaled `lat`; "
+                "table invariant, instantiated at the rows the parse reads)", True)]
+        for p in self._params:
+            out.append(("%s > 0" % p, to_real(getattr(a, p)) > 0))
+        return out
+
+    def snapshot(self, it, a):
+        return snapshot_array(a.self)
+
+    def ensures(self, it, a, r, old):
+        P = it.domain.prefix_table(it)
+        if not N.is_unyt_array(r):
+            return [("C09: the result is a unyt object", False)]
+        ru = r.fields["units"]
+        xd, rd = S.dim(old["units"]), S.dim(ru)
+        x = S.SI(old["elem"], old["units"], P)
+        y = S.SI(N.arr_elem(r), ru, P)
+        it.ctx.instantiate(old["elem"])
+        spec = EF.EQUIVALENCES[self.equiv]
+        K = {c: K_term(c) for c in set(EF.CONSTANTS.values())}
+        p = {k: to_real(getattr(a, k)) for k in self._params}
+        same = S.dim_eq(xd, rd)
+        cases = [same]
+        out = [("C09: a target of the input's own dimension is a plain conversion (same quantity)",
+                z3.Implies(same, y == x))]
+        for (s_, d_), f in spec["formulas"].items():
+            if self.equiv in ("lorentz", "effective_temperature"):
+                continue
+            c = z3.And(S.dim_eq(xd, dim_of(it, EF.DIMS[s_])), S.dim_eq(rd, dim_of(it, EF.DIMS[d_])))
+            cases.append(c)
+            want = f(x, K, p)
+            if isinstance(want, tuple):
+                if want[0] == "undefined-at-zero":
+                    law = z3.Implies(x != 0, y == want[1])
+                elif want[0] == "sqrt":
+                    law = z3.Implies(want[1] >= 0, z3.And(y >= 0, y * y == want[1]))
+                else:
+                    continue
+            else:
+                law = y == want
+            out.append(("C09: %s -> %s: the value in the requested unit (zero point included) is the defining "
+                        "formula's" % (s_, d_), z3.Implies(c, law)))
+        out.append(("C09: a value is returned only for the input's own dimension or a pair the equivalence covers",
+                    z3.Or(*cases)))
+        return out + unchanged("C09/C18: input of the copying entry point", a.self, old)
+
+    def on_raise(self, it, a, old, exc):
+        return unchanged("C09/C18: input of a refused conversion", a.self, old)
+
+    def canary(self, it, a, r, old):
+        return to_real(N.arr_elem(r)) == 12345 if N.is_unyt_array(r) else None
+
+
+ENTRY = []
+for _e in ("thermal", "mass_energy", "spectral", "number_density", "schwarzschild", "compton", "sound_speed"):
+    ENTRY.append(_mk(_ToEquivalent, "ToEquivalent_" + _e, equiv=_e))
+ALL = ALL + ENTRY
+
+
+ENTRY_REPLAY = r'''
+import sys, os
+sys.path.insert(0, os.environ.get("VERIF_ROOT", "/verif"))
+import numpy as np
+import warnings
+warnings.filterwarnings("ignore")
+from unyt import unyt_array, physical_constants as pc
+from spec import equivalence_formulas as EF
+EQUIV = %(equiv)r
+UNITS = {"temperature": ["K", "R", "mK"], "energy": ["J", "erg", "keV"], "mass": ["kg", "g", "Msun"],
+         "length": ["m", "cm", "km", "angstrom"], "rate": ["Hz", "1/s", "1/yr"],
+         "spatial_frequency": ["1/cm", "1/m"], "velocity": ["m/s", "km/s", "cm/s"],
+         "density": ["g/cm**3", "kg/m**3"], "number_density": ["cm**-3", "m**-3"]}
+TARGETS = dict(UNITS, temperature=["K", "R", "mK", "degC", "degF"])
+K = {c: float(getattr(pc, a).in_mks().v) for a, c in EF.CONSTANTS.items()}
+p = {k: float(v) for k, v in EF.EQUIVALENCES[EQUIV]["params"].items()}
+xval = num(MODEL.get("x.elem", 1.5)) or 1.5
+bad = 0
+def si(q):
+    u = q.units
+    return (np.atleast_1d(q.d).astype(float) - u.base_offset) * u.base_value
+for (src, dst), f in EF.EQUIVALENCES[EQUIV]["formulas"].items():
+    for su in UNITS[src]:
+        for tu in TARGETS[dst]:
+          # a ladder of magnitudes, so that zero points of the target scale are not lost in rounding
+          for mag in [10.0 ** k for k in range(-36, 37, 3)]:
+            x = unyt_array([(abs(xval) + 0.5) * mag, 2.25 * mag], su)
+            before = x.copy()
+            try:
+                r = x.to_equivalent(tu, EQUIV)
+            except Exception as e:
+                print("raised", type(e).__name__, e, "for", before, "->", tu); bad += 1; continue
+            for xi, yi in zip(si(before), si(r)):
+                w = f(xi, K, p)
+                if isinstance(w, tuple):
+                    w = w[1] if w[0] == "undefined-at-zero" else (w[1] ** 0.5 if w[0] == "sqrt" else float("nan"))
+                if w == w and np.isfinite(w) and np.isfinite(yi) and not close(yi, w, 1e-9) and bad < 20:
+                    print("FORMULA:", before, "->", tu, "gives", r, "=", yi, "SI; formula", w); bad += 1
+            if not (np.array_equal(x.d, before.d) and x.units == before.units):
+                print("INPUT CHANGED:", before, "->", x); bad += 1
+print("violations reproduced:", bad)
+sys.exit(1 if bad else 0)
+'''
+
+
+def _entry_replay(self, model, label):
+    from .replaylib import script
+    return script(model, ENTRY_REPLAY % {"equiv": self.equiv})
+
+
+_ToEquivalent.replay = _entry_replay
